@@ -280,6 +280,30 @@ func (e *linEnv) linTerm(t *Term) (Lin, error) {
 		}
 		return linVar(t), nil
 	case "call":
+		// builtin min / max of integers: split on which argument wins
+		if t.Fn == nil && (t.Name == "min" || t.Name == "max") && len(t.Args) >= 2 && intTerm(t.Args[0]) {
+			key := "minmax:" + t.Key()
+			args, isMin := t.Args, t.Name == "min"
+			i, ok := e.choices[key]
+			if !ok {
+				return Lin{}, &needChoice{key: key, n: len(args), guard: func(i int) *Formula {
+					// argument i is the result: it is ≤ (min) / ≥ (max) every other argument
+					var fs []*Formula
+					for j, o := range args {
+						if j == i {
+							continue
+						}
+						if isMin {
+							fs = append(fs, cmpFormula(token.LEQ, args[i], o))
+						} else {
+							fs = append(fs, cmpFormula(token.GEQ, args[i], o))
+						}
+					}
+					return And(fs...)
+				}}
+			}
+			return e.linTerm(args[i])
+		}
 		// small loop-free repo helper with an integer result: split over its return sites
 		if t.Fn != nil && isInteger(resultType(t.Fn, 0)) && t.Fn.Signature.Results().Len() == 1 && e.root != nil && e.root.inlinable(t.Fn) {
 			ch := e.root.childTerm(t)
